@@ -47,7 +47,8 @@ func lockPairing(c *core.Ctx, lc *core.LockCache, rule string, fns []*ssa.Functi
 // guardedField is one row of a guarded-by table.
 type guardedField struct {
 	Rel, Struct, Field string // field Rel.Struct.Field …
-	Mutex              string // … is protected by Rel.Struct.Mutex
+	Mutex              string // … is protected by Rel.Struct.Mutex (a hint: the guard is inferred if renamed)
+	Var                *types.Var // the field, when the caller resolved it by role
 	Reason             string
 	// ReadsUnlocked lists functions (FuncKey) allowed to read without the
 	// lock, each with a reason; writes are never exempt.
@@ -277,16 +278,23 @@ func implementsSomeInterface(c *core.Ctx, fn *ssa.Function) bool {
 
 // guardedBy checks one table row over every function of the struct's package.
 func guardedBy(c *core.Ctx, lc *core.LockCache, el *entryLocks, rule string, g guardedField) {
-	fld := c.Field(g.Rel, g.Struct, g.Field)
-	mu := c.Field(g.Rel, g.Struct, g.Mutex)
+	st := strct(c, g.Rel, g.Struct)
 	row := g.Rel + "." + g.Struct + "." + g.Field
+	if st == nil {
+		c.Undecided(rule, row, token.NoPos, "struct no longer exists (and no struct of the package has its field types): the guarded-by table must be re-confirmed")
+		return
+	}
+	fld := g.Var
+	if fld == nil {
+		fld = c.FieldT(st, g.Field, fieldType[row])
+	}
 	if fld == nil {
 		c.Undecided(rule, row, token.NoPos, "field no longer exists: the guarded-by table must be re-confirmed")
 		return
 	}
-	class := core.LockClass{Owner: g.Rel + "." + g.Struct, Field: g.Mutex}
-	if mu == nil {
-		c.Fail(rule, row+"@<type>", fld.Pos(), fmt.Sprintf("shared state %s has no mutex %s (%s)", row, g.Mutex, g.Reason))
+	class, ok := guardOf(c, lc, g.Rel, st, fld, g.Mutex)
+	if !ok {
+		c.Fail(rule, row+"@<type>", fld.Pos(), fmt.Sprintf("shared state %s has no mutex in its struct (%s)", row, g.Reason))
 		return
 	}
 	n := 0
